@@ -1128,19 +1128,6 @@ def _r_repeat(case, a, bs, n, nd):
     return "len(repeats)!=ndim" if len(a["reps"]) != n else None
 
 
-@restrict("expand")
-def _r_expand(case, a, bs, n, nd):
-    # _td.py expand compares sizes literally: -1 ("keep") is not part of tensordict's expand contract.
-    # (-1 against a size-1 dim slips through the comparison and is NOT a restriction: see finding D30.)
-    sh = a["shape"]
-    if len(sh) < n:
-        return None
-    tail = sh[len(sh) - n:] if n else []
-    if any(t == -1 and o != 1 for t, o in zip(tail, bs)):
-        return "-1-at-non-singleton-dim"
-    return None
-
-
 @restrict("transpose")
 def _r_transpose(case, a, bs, n, nd):
     return "rank-0" if n == 0 else None     # torch lets a 0-dim tensor be transposed over dims in [-1, 0]
@@ -1166,10 +1153,6 @@ def _r_gather(case, a, bs, n, nd):
         return "rank-0"
     if len(sh) == 0 or sh[0] == 0:
         return "empty-index"
-    if len(sh) == n:
-        d = nd(a["dim"])
-        if any(sh[i] != bs[i] and sh[i] != 1 for i in range(n) if i != d):
-            return "index-differs-off-dim"
     return None
 
 
@@ -1518,8 +1501,8 @@ def main(R):
               "non-trivial when the batch rank is >= 1 and the tensordict has at least one entry")
     R.assumptions = ["torch kernels are the referent: what torch returns for an index proxy of the batch shape defines "
                      "the demanded batch size and element map (validated against Spec/C02_TorchShape in this run)",
-                     "tensordict's documented narrower domains (flatten start<end, repeat len=ndim, expand without -1, "
-                     "masked_select mask of batch shape, gather index differing only at dim, rank-0 spellings) are outside "
+                     "tensordict's documented narrower domains (flatten start<end, repeat len=ndim, "
+                     "masked_select mask of batch shape, gather with an empty first index dim, rank-0 spellings) are outside "
                      "the comparison; permute of a prefix permutation is compared with torch on the completed permutation",
                      "function spellings torch.f(tensorclass) only for stack/cat/split",
                      "lazy stacks: see notes/C02-selftest.md"]
